@@ -72,6 +72,13 @@ def gen(seed: int, i: int, tier: str) -> dict:
         wakes.append({"at": t, "node": rng.choice(nodes)})
         t += rng.choice([1.0, 4.0, 8.0, 20.0])
     lat = [rng.choice([0, 0, 1, 2, 3, 5]) for _ in range(rng.randint(0, 12))]
+    reqs = rng.random() < 0.25
+    if reqs:
+        # the woken node also asks for values back before/after it is flushed
+        for _ in range(rng.randint(1, 3)):
+            k = rng.choice(keys)
+            wakes.append({"at": rng.choice([9.75, 10.25, 12.25, 15.25]), "node": k[0], "req": [k[1], k[2]]})
+        wakes.sort(key=lambda x: x["at"])
     actors = []
     if i % 10 == 0 and pre:
         # directed template: a send on the key being written lands inside its suspended write
@@ -92,7 +99,7 @@ def gen(seed: int, i: int, tier: str) -> dict:
         # fault injection on release writes while sends race with the flush (1 = fails at once, 2 = fails after
         # its suspension); the final wakes run after the tape is exhausted, i.e. fault-free
         tapes["w.fail.set"] = [rng.choice([0, 0, 1, 2, 2]) for _ in range(rng.randint(1, 5))]
-    return {"cfg": {"pin": proto, "reenter": rng.random() < 0.15}, "nodes": nodes, "children": children, "pre": pre,
+    return {"cfg": {"pin": proto, "reenter": rng.random() < 0.15, "reqs": reqs}, "nodes": nodes, "children": children, "pre": pre,
             "wakes": wakes, "actors": actors, "tapes": tapes}
 
 
@@ -127,6 +134,10 @@ def _run(scn, w: GwWorld, res: RunResult):
         w.listen_step(f"{n};255;0;0;17;{proto}\n")
         for c in scn["children"]:
             w.listen_step(f"{n};{c};0;0;3;child\n")
+        if scn["cfg"].get("reqs"):
+            for c in scn["children"]:
+                for t in (2, 3):
+                    w.listen_step(f"{n};{c};1;0;{t};stored-{n}-{c}-{t}\n")
         w.listen_step(wake_line(proto, n, 1))
     sends = []  # dict(key, value, invoke, ret, exc)
     for f in scn["pre"]:
@@ -139,6 +150,7 @@ def _run(scn, w: GwWorld, res: RunResult):
     w._wmark = len(w.writes)
     base = len(w.writes)
     listener_events = []
+    req_marks = []  # event numbers at which a value request was delivered
 
     async def listener():
         while True:
@@ -158,6 +170,11 @@ def _run(scn, w: GwWorld, res: RunResult):
             if dt > 0:
                 await asyncio.sleep(dt)
             k += 1
+            if wk.get("req"):
+                c, t = wk["req"]
+                req_marks.append(w.log("device", "req", wk["node"], c, t))
+                w.transport.inbox.put_nowait(("line", f"{wk['node']};{c};2;0;{t};\n"))
+                continue
             w.log("device", "wake", wk["node"])
             w.transport.inbox.put_nowait(("line", wake_line(proto, wk["node"], k)))
 
@@ -224,6 +241,17 @@ def _run(scn, w: GwWorld, res: RunResult):
     for r in w.writes:
         parts = r["line"].rstrip("\n").split(";")
         if len(parts) >= 6 and parts[2] == "1" and r["ok"]:
+            if ";".join(parts[5:]).startswith("stored-") and r["seq_start"] is not None:
+                # a reply to a value request, written while that request was being handled (before the listener
+                # yielded it): the controller's reaction, not a parked command. A 'stored' value that shows up at
+                # any other moment is judged like every other write.
+                reads = [(ev[0], ev[4]) for ev in w.elog.events if ev[2] == "transport" and ev[3] == "read"
+                         and ev[0] < r["seq_start"]]
+                if reads:
+                    lp = reads[-1][1].rstrip("\n").split(";")  # the line the listener is handling right now
+                    if len(lp) >= 6 and lp[2] == "2" and (lp[0], lp[1], lp[4]) == (parts[0], parts[1], parts[4]):
+                        res.probes["req_reply_excluded"] += 1
+                        continue
             by_key_writes.setdefault((int(parts[0]), int(parts[1]), int(parts[4])), []).append(
                 (r["seq_end"], ";".join(parts[5:]), r))
     by_key_sends = {}
